@@ -20,7 +20,11 @@ worker() {
   done
 }
 rm -f /tmp/seed_results_*.txt
+# scratch worktrees of /repo's HEAD, created here and removed again at the end
+for k in $(seq 1 $N); do R=/tmp/seedrepo$k; [ $k = 1 ] && R=/tmp/seedrepo; [ -d $R ] || git -C /repo worktree add -q --detach $R HEAD; git -C $R checkout -q --detach $(git -C /repo rev-parse HEAD); done
 for k in $(seq 1 $N); do worker $k & done
 wait
 cat /tmp/seed_results_*.txt | sort > seeded/RESULTS.txt
 for k in $(seq 1 $N); do R=/tmp/seedrepo$k; [ $k = 1 ] && R=/tmp/seedrepo; git -C $R status --short | grep -v _build >> seeded/RESULTS.txt; done
+for k in $(seq 1 $N); do R=/tmp/seedrepo$k; [ $k = 1 ] && R=/tmp/seedrepo; git -C /repo worktree remove --force $R; done
+rm -rf /tmp/seedout1 /tmp/seedout2 /tmp/seedout3
